@@ -178,8 +178,7 @@ double vnacal_get_fmin(const vnacal_t *vcp, int ci)
 	return HUGE_VAL;
     }
     if (calp->cal_frequencies < 1) {
-	_vnacal_error(vcp, VNAERR_USAGE, "vnacal_get_fmin: "
-		"calibration %d has no frequencies", ci);
+	errno = EINVAL;
 	return HUGE_VAL;
     }
     return calp->cal_frequency_vector[0];
@@ -198,8 +197,7 @@ double vnacal_get_fmax(const vnacal_t *vcp, int ci)
 	return HUGE_VAL;
     }
     if (calp->cal_frequencies < 1) {
-	_vnacal_error(vcp, VNAERR_USAGE, "vnacal_get_fmax: "
-		"calibration %d has no frequencies", ci);
+	errno = EINVAL;
 	return HUGE_VAL;
     }
     return calp->cal_frequency_vector[calp->cal_frequencies - 1];
